@@ -258,7 +258,7 @@ fn c18_configs(tier: Tier) -> Vec<uring::UCfg> {
             capacity: None,
             odirect: false,
             letters: vec![
-                A_READ0, A_READ2, A_WRITE0, A_WRITE3, A_FSYNC, A_CANCEL_LAST, A_CANCEL_UNKNOWN, A_BADFLAG, A_READ_DUP, A_SUBMIT0,
+                A_READ0, A_READ2, A_WRITE0, A_WRITE3, A_FSYNC, A_CANCEL_LAST, A_CANCEL_UNKNOWN, A_BADFLAG, A_BADFLAG_ASYNC, A_READ_DUP, A_SUBMIT0,
                 A_ADV_HALF, A_ADV_FULL, A_DRAIN0, A_DRAIN_ONE0, A_CLOSE, A_CRASH,
             ],
         },
